@@ -8,6 +8,7 @@ mod c09;
 mod c10;
 mod c11;
 mod c13;
+mod c14;
 mod c15;
 mod c16;
 mod c17;
@@ -57,6 +58,7 @@ fn main() {
         "C10" => c10::run(tier),
         "C11" => c11::run(tier),
         "C13" => c13::run(tier),
+        "C14" => c14::run(tier),
         "C15" => c15::run(tier),
         "C16" => c16::run(tier),
         "C17" => c17::run(tier),
